@@ -416,6 +416,46 @@ def check_show_positions(P, ctx):
     ctx.floor(rule, 5)
 
 
+SINK_CALLS = {'print_to_with', 'show_to', 'format_to', 'format_to_va'}
+
+
+def check_sink_independent(P, ctx):
+    """a show function writes the same text whatever the sink is: it hands its output parameter on to the sink routines (print_to, show_to,
+    format_to — or a helper of its own unit that does the same) and never asks what kind of object it is or writes to it any other way."""
+    rule = 'C14.show-is-sink-independent'
+    nsites, nfun = 0, 0
+
+    def uses(fn, pidx, depth=0):
+        bad = []
+        for c, ln in ir.all_calls(fn['body']):
+            nm = ir.callee_name(c)
+            hit = [i for i, a in enumerate(c[2]) if ir.top_nocast(a)[0] == 'param' and ir.top_nocast(a)[2] == pidx]
+            if not hit:
+                continue
+            if nm in SINK_CALLS:
+                continue
+            h = P.functions.get(nm) if nm else None
+            if h is not None and h['unit'] == fn['unit'] and h.get('body') is not None and depth < 3:
+                bad += uses(h, hit[0], depth + 1)
+                continue
+            bad.append((fn, ln, nm or 'an indirect call'))
+        return bad
+    for T, fname in sorted(P.slots_of_class('Show', 'show')):
+        if not P.types[T]['unit'].startswith('src/'):
+            continue
+        fn = P.functions.get(fname)
+        if fn is None or len(fn['params']) < 2:
+            continue
+        nfun += 1
+        ctx.fn(fn)
+        bad = uses(fn, 1)
+        nsites += sum(1 for c, _ in ir.all_calls(fn['body']) if any(ir.top_nocast(a)[0] == 'param' and ir.top_nocast(a)[2] == 1 for a in c[2]))
+        ctx.check(not bad, rule, '%s.Show.show' % T, site(bad[0][0], bad[0][1]) if bad else site(fn),
+                  'the output is only handed on to the sink routines', ['the output is passed to %s' % bad[0][2]] if bad else None)
+    ctx.stats['call_sites'] += nsites
+    ctx.floor(rule, 10)
+
+
 def check_container_show_walk(P, ctx):
     """%$ of a container shows each element once, in order, and the position is threaded through every write: the show
     function of each container type is evaluated on abstract containers (eval_container_show)."""
@@ -478,6 +518,7 @@ def run(ctx, load):
     check_position_threaded(P, ctx)
     check_container_show_walk(P, ctx)
     check_show_positions(P, ctx)
+    check_sink_independent(P, ctx)
     check_string_sink(P, ctx)
     # too few arguments raise FormatError — also when the format is the message of a throw: the FormatError raised from inside the throw
     # is what the handlers see, and later throws are unaffected (the try/throw/catch protocol of C07 with malformed throws, explored on
